@@ -480,13 +480,20 @@ def fresh_install_scenario(idx, add, stats):
     forms = [(f1, f2) for f1 in FORMS for f2 in FORMS][idx]
     hist = form_history(forms)
     for driver in ('D2', 'D3'):
-        for start in (None, 0, 1):
+        for start in (None, 0, 1, 'flushed-v1'):
             B.fresh_db('default')
             replay = {'scenario': 'fresh-install', 'forms_index': idx,
                       'driver': driver, 'start': start}
+            flushed = start == 'flushed-v1'
             ctx = '%s|start=%s|%s' % ('+'.join(forms),
                                       'empty' if start is None else
+                                      start if flushed else
                                       'v%d' % start, driver)
+            if flushed:
+                # version 1 installed, then Django's flush: the bookkeeping
+                # is emptied and the post_migrate hook installs a baseline
+                # (whole sequence recorded, full signature)
+                start = 1
             if start is not None:
                 hist.install(start)
                 B.reset_globals()
@@ -495,6 +502,11 @@ def fresh_install_scenario(idx, add, stats):
                 if not r0.ok:
                     stats['failed_runs'] += 1
                     continue
+                if flushed:
+                    from django.core.management import call_command
+                    import io
+                    call_command('flush', interactive=False, verbosity=0,
+                                 stdout=io.StringIO())
             hist.install(2)
             B.reset_globals()
             tracer = O.Tracer('default')
